@@ -66,6 +66,7 @@ def run(chk):
         r08_3(chk, sd, inv)
     if chk.want("R08.4"):
         r08_4(chk, sd)
+        r08_expand(chk, repo, sd)
     chk.assume("rotation invariance as a numerical fact and the Clebsch-Gordan (Racah) formula itself are not decided")
     chk.assume("the installed _invariants .so may lag the .pyx source (Cython is not available to rebuild)")
 
@@ -79,6 +80,12 @@ def _power_like(base: P, coef: P) -> bool:
         return any(a[1] == p for p in prods)
     if a and a[0] == "call" and call_name(a) == "numpy.real" and a[2]:
         return any(a[2][0] == p for p in prods)
+    re_, im_ = P.atom(("attr", coef, "real")), P.atom(("attr", coef, "imag"))
+    if base == re_ * re_ + im_ * im_:
+        return True
+    ab = base.as_atom()
+    if ab and ab[0] == "call" and call_name(ab) in (".astype",) and ab[1].as_atom():
+        return _power_like(ab[1].as_atom()[1], coef)
     return base == P.atom(("call", P.name("abs"), (coef,))) ** 2
 
 
@@ -137,6 +144,15 @@ def r08_1(chk, sd):
     chk.saw(SD, q)
     coef = P.name(ev.param_names[0])
     stores = [e for e in ev.events if e.kind in ("store", "aug") and e.loops]
+    if not stores:
+        # vectorised forms: a value of degree l that is read off a running total over the whole vector depends (through rounding) on the
+        # coefficients of all lower degrees -- the property asks for dependence on degree l only
+        rv = ev.returns[-1].value
+        cums = find_atoms(rv, lambda a: a[0] == "call" and call_name(a) in ("numpy.cumsum", ".cumsum", "numpy.add.accumulate"))
+        if cums:
+            chk.ob("R08.1", SD, q, "the invariant of degree l is computed from the coefficients of degree l only", False, node=ev.returns[-1].node,
+                   fingerprint="degree-local", expected="a sum over the block [l^2, (l+1)^2) for each l",
+                   found=f"differences of a running total over the whole vector: {str(P.atom(cums[0]))[:120]}")
     chk.need(stores, f"{q}: per-degree store not found")
     n = 0
     for e in stores:
@@ -207,6 +223,17 @@ def r08_2(chk, sht):
     coef = P.name(ev.param_names[1])
     # complex branch: stores inside a range loop
     stores = [e for e in ev.events if e.kind == "store" and e.loops]
+    if not stores:
+        # a full-layout branch that first selects part of the coefficients: every one of the (L+1)^2 coefficients of a complex
+        # function is independent (|c(l,-m)| = |c(l,m)| holds for real-valued functions only)
+        for e in ev.events:
+            if e.kind == "assign" and e.name == ev.param_names[1] and e.value is not None:
+                va = e.value.as_atom()
+                if va and va[0] == "sub" and va[1].key() == coef.key() and len(va[2]) == 1 and va[2][0].as_atom() \
+                        and va[2][0].as_atom()[0] not in ("slice", "lv", "const"):
+                    chk.ob("R08.2", SHT, q, "complex branch: every coefficient of the full layout enters the spectrum (the m < 0 entries are not "
+                           "inferred from the m > 0 ones)", False, node=e.node, fingerprint="cplx-all-coefficients",
+                           expected="sum over the whole block [l^2, (l+1)^2)", found=f"{ev.param_names[1]} = {str(e.value)[:140]}")
     chk.need(stores, f"{q}: complex-branch store not found")
     for e in stores:
         l = e.loops[-1].index
@@ -527,3 +554,30 @@ def r08_4(chk, sd):
                     once = False
     chk.ob("R08.4", SD, q, "each block is present at most once", once, fingerprint="once",
            found=str([(k, [("" if p else "not ") + c.key()[:30] for c, p in e.guards]) for k, _, _, e in seq])[:300])
+
+
+def r08_expand(chk, repo, sd):
+    """The descriptors expand half-layout coefficients with expand_coeffs_to_full: that name must denote the kernel C07 R07.6 checks,
+    or an implementation that covers the same (m, l) domain."""
+    full = sd.ctx.alias.get("expand_coeffs_to_full")
+    want = "chmpy.shape._sht.expand_coeffs_to_full"
+    if full == want:
+        chk.ob("R08.4", SD, "<imports>", "expand_coeffs_to_full is the compiled kernel checked by C07 R07.6", True, fingerprint="expand-binding", nontrivial=False)
+        return
+    hit = repo.resolve_symbol(full) if full and full.startswith("chmpy.") else None
+    if hit and hit[0].rel.endswith(".pyx"):
+        chk.ob("R08.4", SD, "<imports>", "expand_coeffs_to_full is the compiled kernel checked by C07 R07.6", hit[1] == "expand_coeffs_to_full",
+               fingerprint="expand-binding", found=full)
+        return
+    if not hit or hit[1] not in hit[0].funcs:
+        raise AnalysisError(f"shape_descriptors: expand_coeffs_to_full resolves to {full}, which is not a chmpy function")
+    m, q = hit
+    ev = m.ev(q)
+    chk.saw(m.rel, q)
+    lmax = P.name(ev.param_names[0])
+    loops = [l for l in ev.all_loops if l.kind == "range"]
+    mloops = [l for l in loops if l.lo == P.const(1)]
+    if not mloops:
+        raise AnalysisError(f"{m.rel}:{q}: no loop over m = 1.. found in the replacement of the compiled kernel")
+    chk.ob("R08.4", m.rel, q, "the Python replacement of the compiled expansion covers every order m = 1 .. lmax", all(l.hi == lmax + 1 for l in mloops),
+           node=mloops[0].node, fingerprint="expand-domain", expected=f"range(1, {lmax + 1})", found=[f"range({l.lo}, {l.hi})" for l in mloops])
